@@ -55,6 +55,7 @@ def catalog():
     return {
         "carry": ("carry", 300, "kernel accumulators carried/reset correctly across invocations (all units)", _kernel_rule("R-C01-carry")),
         "gate": ("gate", 300, "VALID and strict cutoff gate every accumulation (all units)", _kernel_rule("R-C01-gate")),
+        "loops": ("loops", 300, "counted loops of every kernel run 0 <= i < bound, step 1 (all units)", _kernel_rule("R-C01-loops")),
         "restart": ("restart", 300, "dispersity loop restart protocol (all units)", _kernel_rule("R-C01-restart")),
         "driver": ("driver", 12, "chunks tile [0, num_eval) in the dll/opencl/cuda drivers", c01.rule_chunk),
         "values": ("values", 9, "value-vector layout and NUM_VALUES", c01.rule_values),
